@@ -185,6 +185,9 @@ func WorkerMain(t *testing.T, reg map[string]Harness) {
 				break
 			}
 			seed := RunSeed(vs, os.Getenv("DSIM_HARNESS"), i)
+			if only := os.Getenv("DSIM_ONLY_SEED"); only != "" && only != strconv.FormatUint(seed, 10) {
+				continue // debugging aid: execute one run seed of the range
+			}
 			curRunIndex = i
 			sc := h.Generate(seed, tier)
 			res := RunInBubble(t, "r", func(t *testing.T) *Result { return h.Execute(t, sc) })
